@@ -3,6 +3,9 @@ package work
 import (
 	"encoding/hex"
 	"math/big"
+	"sync"
+
+	secp "github.com/bytemare/secp256k1"
 
 	"verifsim/entropy"
 	"verifsim/model"
@@ -71,7 +74,12 @@ func be32(v *big.Int) []byte {
 func (g *Gen) scalarVal() *big.Int {
 	r := g.r
 	var v *big.Int
-	switch r.Pick([]float64{2, 2, 3, 3, 4, 2, 1, 3, 2, 2, 1.5}) {
+	switch r.Pick([]float64{2, 2, 3, 3, 4, 2, 1, 3, 2, 2, 1.5, 0.6}) {
+	case 11:
+		if v := g.harvestedValue(model.N, rInvN); v != nil {
+			return v
+		}
+		return g.montScalar()
 	case 10:
 		return g.montScalar()
 	case 9:
@@ -203,6 +211,41 @@ func (g *Gen) structuredK(m *big.Int, gapBits int) *big.Int {
 		k = big.NewInt(int64(r.N(16)))
 	}
 	return k.Mod(k, m)
+}
+
+var (
+	harvestOnce sync.Once
+	harvest     []*big.Int
+)
+
+// harvestedValue returns a 256-bit constant that the source of the library
+// under test spells out as four 64-bit limbs (a dictionary, as fuzzers use),
+// read as a plain integer or as a Montgomery representation, sometimes off by
+// one, reduced modulo m. A comparison against a particular — possibly mistyped
+// — constant cannot be met by chance; the constant itself can be offered.
+func (g *Gen) harvestedValue(m, rInv *big.Int) *big.Int {
+	harvestOnce.Do(func() {
+		for _, c := range secp.VerifConstants() {
+			v := new(big.Int)
+			for i := 3; i >= 0; i-- {
+				v.Lsh(v, 64)
+				v.Or(v, new(big.Int).SetUint64(c[i]))
+			}
+			harvest = append(harvest, v)
+		}
+	})
+	if len(harvest) == 0 {
+		return nil
+	}
+	r := g.r
+	v := new(big.Int).Set(harvest[r.N(len(harvest))])
+	if r.P(0.6) {
+		v.Mul(v, rInv)
+	}
+	if r.P(0.2) {
+		v.Add(v, big.NewInt(int64(r.N(3)-1)))
+	}
+	return v.Mod(v, m)
 }
 
 // montScalar returns a scalar whose Montgomery representation is structured,
@@ -413,7 +456,9 @@ func (g *Gen) pointVal() model.Point {
 func (g *Gen) structuredXPoint() model.Point {
 	r := g.r
 	x := new(big.Int)
-	if r.P(0.25) {
+	if hv := g.harvestedValue(model.P, rInvP); hv != nil && r.P(0.2) {
+		x = hv
+	} else if r.P(0.25) {
 		x.Sub(model.P, big.NewInt(int64(1+r.N(64))))
 	} else {
 		for i := 0; i < 4; i++ {
@@ -1026,7 +1071,26 @@ func (g *Gen) gadget() []Op {
 	dec := func(recv int, v *big.Int) Op {
 		return Op{K: "s.decode", R: recv, B: []Bytes{g.bytesArg(be32(v), "enc")}}
 	}
-	switch r.N(9) {
+	switch r.N(10) {
+	case 9: // a special scalar (dictionary, Montgomery-structured or edge value) as exponent, factor, addend and multiplier
+		if ns < 2 {
+			return nil
+		}
+		v := g.harvestedValue(model.N, rInvN)
+		if v == nil || r.P(0.4) {
+			v = g.scalarVal()
+		}
+		t := (s + 1 + r.N(ns-1)) % ns
+		ops := []Op{dec(s, v)}
+		for _, k := range []string{"s.pow", "s.mul", "s.add", "s.sub"} {
+			if r.P(0.6) {
+				ops = append(ops, Op{K: k, R: t, A: []int{s}})
+			}
+		}
+		if r.P(0.5) {
+			ops = append(ops, Op{K: "e.mul", R: a, A: []int{s}})
+		}
+		return ops
 	case 0: // P + (-P) where both went through arithmetic (Z != 1 on both sides)
 		return []Op{{K: "e.set", R: b, A: []int{a}}, {K: "e.double", R: b}, {K: "e.sub", R: b, A: []int{a}}, {K: "e.negate", R: b}, {K: "e.add", R: b, A: []int{a}}}
 	case 1: // the same point in two representations, then compare / subtract / add
